@@ -464,6 +464,9 @@ def oracle(ctx, deep):
         fails += multihomed_probe(ctx, ke, rng, rng.choice((4, 6)))
         if fails:
             return fails
+    fails += acquire_e2e(ctx, deep)
+    if fails:
+        return fails
     for i in range(n):
         my_addresses, conf = gen_config(rng)
         cfg = load(my_addresses, conf)
@@ -575,9 +578,54 @@ def unknown_index_regression(ctx):
     return []
 
 
+def acquire_during_rekey_regression(ctx):
+    """F22, through the real main_loop: the kernel asks for a CHILD_SA while the IKE_SA is being rekeyed - at the rekey
+    responder right after it answered (its old IkeSa is REKEYED and still listed first), and at the rekey initiator
+    while its old IkeSa waits for the answer to its DELETE.  The ACQUIRE used to be queued on the old IkeSa and was
+    lost when that one was removed: nothing was negotiated."""
+    from sim.scenarios import Pair, scripted
+    from sim.world import LoopEscape
+    rep = {'regression': 'F22'}
+    with Pair(seed=22) as p:
+        try:
+            p.run(scripted('acquire_during_ike_rekey'))
+            p.drain()
+            na = sum(len(x.child_sas) for x in p.A.controller.ike_sas)
+            nb = sum(len(x.child_sas) for x in p.B.controller.ike_sas)
+            lost = [(n, int(x.state), len(x.pending_events)) for n in 'AB' for x in p.ep(n).controller.ike_sas
+                    if x.pending_events]
+            ctx.case(['F22', na, nb], nontrivial=True)
+            if na != 3 or nb != 3 or len(p.A.kernel.sad) != 6 or len(p.B.kernel.sad) != 6 or lost:
+                return [Failure('property', 'acquire:lost-during-ike-rekey',
+                                f'F22 is back: two ACQUIREs arrived during an IKE_SA rekey (one at each side); afterwards A '
+                                f'tracks {na} and B {nb} CHILD_SAs (3 expected each), kernel SAs {len(p.A.kernel.sad)}/'
+                                f'{len(p.B.kernel.sad)}, events still queued: {lost}', rep)]
+        except LoopEscape as ex:
+            return [Failure('property', 'loop:escaped-exception', f'F22: {ex.exc!r}', rep)]
+    return []
+
+
+def acquire_e2e(ctx, deep):
+    """ACQUIRE-driven negotiations (initial exchanges, a further CHILD_SA) through main_loop against a responder that
+    holds the keys and misbehaves or is configured differently: whatever it answers, what the ACQUIRING endpoint ends
+    up installing carries algorithms of ITS protect entry's proposal, that entry's mode and protocol and selectors
+    inside its policy (the end-to-end oracles of C11 and C12, on the ACQUIRE path)."""
+    from props import hdl, c11, c12
+    fails = []
+    for label, acts, conf, seed, skip in hdl.deviant_set(deep, ctx.seed):
+        if not (label.startswith(('devB/handshake', 'devB/new_child', 'asym/')) or 'stateless' in label):
+            continue
+        fails += c11.installed_within_offers(ctx, label, acts, conf, seed)
+        fails += c12.installed_within_policies(ctx, label, acts, conf, seed)
+        ctx.count('acquire-e2e')
+        if len(fails) > 2:
+            break
+    return fails
+
+
 def regressions(ctx):
-    """Fixed findings F18 and F21 must stay fixed."""
-    f21 = unknown_index_regression(ctx)
+    """Fixed findings F18, F21 and F22 must stay fixed."""
+    f21 = unknown_index_regression(ctx) + acquire_during_rekey_regression(ctx)
     if f21:
         return f21
     if not hasattr(ctx, 'uapi'):
@@ -594,6 +642,12 @@ def regressions(ctx):
 def replay(ctx, obj):
     if obj.get('regression') == 'F21':
         return unknown_index_regression(ctx)
+    if obj.get('kind') == 'e2e':
+        from props import c11, c12
+        return (c11.installed_within_offers(ctx, obj['label'], obj['actions'], obj['conf'], obj['seed']) +
+                c12.installed_within_policies(ctx, obj['label'], obj['actions'], obj['conf'], obj['seed']))
+    if obj.get('regression') == 'F22':
+        return acquire_during_rekey_regression(ctx)
     if obj.get('kind') == 'c15-multihomed':
         if not hasattr(ctx, 'uapi'):
             ctx.uapi = c14.translate_uapi(ctx)
@@ -617,9 +671,21 @@ def replay(ctx, obj):
     return []
 
 
+def translate_all(ctx):
+    """this cluster's facts, and the facts of the state-machine cluster whose endpoint model Props/C15E.v is about"""
+    translate(ctx)
+    from props import ikefacts
+    ikefacts.translate(ctx)
+
+
+def correspond_all(ctx):
+    from props import hdl
+    return (correspond(ctx) or []) + hdl.tie(ctx)
+
+
 CHECK = core.Check(
-    'C15', CLUSTER, 'Props/C15.v', translate=translate, correspond=correspond, oracle=oracle, replay=replay,
-    regressions=regressions, deps=('lib',),
+    'C15', CLUSTER, ['Props/C15.v', ('ikesa', 'Props/C15E.v')], translate=translate_all, correspond=correspond_all,
+    oracle=oracle, replay=replay, regressions=regressions, deps=('lib', 'ikesa'),
     rule='configurations: 1-3 connections x 1-3 protect entries, IPv4/IPv6 endpoints and subnets (defaults included), '
          'ports {0,1,22,255,256,65535,random}, tcp/udp/icmp/any, transport/tunnel, esp/ah, explicit indices '
          '{0,1,2,small,2^20,2^29-1,random} or the random default, loaded by the real configuration.Configuration; '
@@ -632,11 +698,18 @@ CHECK = core.Check(
                   'abstract kernel of PolicyModel.v (FLUSHPOLICY/FLUSHSA/NEWPOLICY with EEXIST on equal selector+dir) '
                   'and its Python twin SimKernel (struct offsets from gcc)',
                   'correspondence harness py/props/c15.py (recorder socket replacing NetlinkProtocol._get_socket, '
-                  'time.time/os.getpid/random.randint patched)'],
+                  'time.time/os.getpid/random.randint patched)',
+                  'Props/C15E.v is about the endpoint model (coq/ikesa Endpoint.v over Hdl.v): fail-closed translator '
+                  'py/props/ikefacts.py and the endpoint-history correspondence (see the entries below)'] +
+    __import__('props.hdl', fromlist=['TRUSTED']).TRUSTED,
     assumptions=['protect indices are non-negative and below 2^29 (the policy index is a 32-bit field: index*8+1)',
                  'no two requested policies share selector and direction (the kernel refuses the second: EEXIST)',
                  'the kernel acknowledges every request (a refusal raises NetlinkError out of the constructor)',
-                 'C15_acquire is proved for the index lookup and for the choice of the IKE_SA ((my_addr, peer_addr) rule, '
-                 'C15_acquire_ike_sa); selectors/proposal/mode/lifetime of the negotiation are checked on the real code, '
-                 'not proved'],
+                 'C15_acquire is proved for the index lookup and for the choice of the IKE_SA ((my_addr, peer_addr) rule '
+                 'passing over IKE_SAs that are being replaced or closed, C15_acquire_ike_sa); proposal, mode, lifetime '
+                 'and offered selectors of the negotiation an ACQUIRE starts are proved on the endpoint model '
+                 '(Props/C15E.v) and checked end to end on the real code (acquire_e2e)',
+                 'C15E_offered_selectors_inside_the_entry assumes that the packet selectors of the ACQUIRE lie inside the '
+                 "policy's (the kernel looks the policy up by the packet); the daemon itself does not check it "
+                 '(C15E_example_selectors_not_checked)'],
 )
